@@ -11,11 +11,18 @@ a private directory, real formats, real key files.  Every open-for-writing is re
 attempts, whatever API is used; builtins.open wrapper: successes) and the whole directory is snapshotted
 before and after.
 
-The model receives (fields with their outcomes, key-file states, format known?, formatter outcome) and
-predicts (outcome, files opened for writing in order, final content of destination and key files).
+A case is a HISTORY on one configuration object: its first save, then optionally more steps -- further
+saves (new values, new faults, other destination / format) and changes made by someone else in between
+(a key file repaired, rotated, damaged or deleted; the destination overwritten or deleted).
+
+The model (Save.v, run_savefaults) receives per save (fields with their outcomes, format known?, formatter
+outcome) plus the world (key-file states, unwritable paths, random draws) and predicts for every step
+(outcome, files opened for writing in order, content of destinations and key files afterwards); it
+threads only the file system through the saves (KeyFile objects hold nothing between saves).
 The oracle does not use the model: failed save => destination byte-identical (or still absent), nothing
-but key files written; successful save => bytes == what dumps returned == an independent dumps of a twin
-configuration, and a fresh configuration loaded from the file holds equal values.
+but key files written; successful save => bytes == what dumps returned == an independent dumps of a
+brand-new configuration with equal values and the key files now on disk, and a brand-new configuration
+loaded from the file holds equal values.
 """
 import builtins
 import hashlib
